@@ -898,7 +898,7 @@ pub fn gen_op(m: &Model, p: &Profile, seed: &OpSeed) -> Option<Op> {
         }
         K::Away => {
             if s.chance(70) {
-                format!("AWAY :{}", ["gone", "be right back", "a:b c"][s.pick(3)])
+                format!("AWAY :{}", ["gone", "be right back", "a:b c", "gone", "", " "][s.pick(6)])
             } else {
                 "AWAY".to_string()
             }
